@@ -192,7 +192,7 @@ func (rc *RunCtx) judgeExec(u *ExecUniverse, rows []ObsRow) map[int][]string {
 	}, 20*time.Minute)
 	out := map[int][]string{}
 	for _, v := range verdicts {
-		out[v.ID] = v.Clauses
+		out[v.ID] = append(out[v.ID], v.Clauses...)
 	}
 	return out
 }
